@@ -61,6 +61,7 @@ fn gen(rng: &mut Rng, idx: u64, tier: Tier) -> Case {
             if rng.chance(0.7) { a2.push(format!("--observer-coord={:.3}, {:.3}", rng.f64() * 160.0 - 80.0, rng.f64() * 340.0 - 170.0)); }
         }
         gen::long_uptime(rng, &mut lines, 0.03);
+        gen::near_time_boundary(rng, &mut lines, 0.03);
         let ch = *rng.pick(&[Chunking::Line, Chunking::Line, Chunking::Multi, Chunking::Pieces]);
         let mut script = Script::file(a1, vec![]);
         script.tcp = rng.chance(0.25);
@@ -70,7 +71,7 @@ fn gen(rng: &mut Rng, idx: u64, tier: Tier) -> Case {
             let mut first = gen::ops_of(rng, lines, ch);
             first.push(if rng.chance(0.6) { crate::script::Op::Eof { dt_us: 0 } } else { crate::script::Op::Err { dt_us: 0, kind: "ConnectionReset".into() } });
             let mut conns = vec![crate::script::Conn::Accept { ops: first }];
-            if rng.chance(0.3) { conns.push(crate::script::Conn::Refuse { kind: "ConnectionRefused".into() }); }
+            if rng.chance(0.3) { conns.push(crate::script::Conn::Refuse { kind: "ConnectionRefused".into(), dt_us: 0 }); }
             conns.push(crate::script::Conn::Accept { ops: gen::ops_of(rng, rest, ch) });
             script.conns = conns;
         } else {
@@ -100,6 +101,7 @@ fn gen(rng: &mut Rng, idx: u64, tier: Tier) -> Case {
             if rng.chance(0.05) { lines.push((0, line, format!("{:?}:duplicate", k).to_lowercase())); }
         }
         gen::long_uptime(rng, &mut lines, 0.03);
+        gen::near_time_boundary(rng, &mut lines, 0.03);
         let ch = *rng.pick(&[Chunking::Line, Chunking::Line, Chunking::Multi]);
         let script = Script::file(base.clone(), gen::ops_of(rng, lines, ch));
         let mut a2 = base;
